@@ -160,10 +160,21 @@ def fresh_copy(fd, user):
     return new
 
 
+def resolve(fd, v):
+    """{'$nodal': name} / {'$elemental': name}: the current array of that user variable"""
+    if isinstance(v, dict) and len(v) == 1:
+        (k, nm), = v.items()
+        if k == '$nodal':
+            return np.array(fd.nodal_data.get_attribute_data(nm)).copy()
+        if k == '$elemental':
+            return np.array(fd.elemental_data.get_attribute_data(nm)).copy()
+    return v
+
+
 def call(fd, q, kwargs):
     try:
         with contextlib.redirect_stdout(io.StringIO()):
-            v = getattr(fd, q)(**kwargs)
+            v = getattr(fd, q)(**{k: resolve(fd, x) for k, x in kwargs.items()})
         return ['ok', canon(v)], brief(v)
     except BaseException as e:        # noqa
         if isinstance(e, (KeyboardInterrupt, SystemExit, MemoryError)):
@@ -262,15 +273,23 @@ def run_history(hist, workdir, hid):
                     out.append(rec)
                     continue
                 before = {o: snapshot(x, users[o]) for o, x in live.items()}
-                with contextlib.redirect_stdout(io.StringIO()):
-                    child = getattr(fd, op['d'])(**op.get('kwargs', {}))
+                raw = fresh_copy(fd, users[op['o']])
+                child = None
+                try:
+                    with contextlib.redirect_stdout(io.StringIO()):
+                        child = getattr(fd, op['d'])(**op.get('kwargs', {}))
+                    obs = ['ok', snapshot(child, users[op['o']])]
+                except Exception as ex:
+                    obs = ['raise', type(ex).__name__]
+                    rec['raised'] = type(ex).__name__ + ': ' + str(ex)[:120]
                 after = {o: snapshot(x, users[o]) for o, x in live.items()}
                 rec['d'] = op['d']
                 rec['changed'] = [f'{o}:{key}' for o in before for key in before[o]
                                   if before[o][key] != after[o].get(key)]
+                todo.append(('derive', rec, raw, op, obs, users[op['o']]))
                 if child is fd:
                     rec['same_object'] = True
-                else:
+                elif child is not None:
                     live[op['o2']] = child
                     # a derived object carries (a restriction of) its parent's user variables
                     users[op['o2']] = {'nodal': list(users[op['o']]['nodal']),
@@ -291,6 +310,18 @@ def run_history(hist, workdir, hid):
                 if exp != obs:
                     rec['expected'] = {'canon': exp if exp[0] == 'raise' else exp[1][:4], 'brief': exp_b}
                     rec['observed'] = {'canon': obs if obs[0] == 'raise' else obs[1][:4], 'brief': obs_b}
+            elif kind == 'derive':
+                obs, user = item[4], item[5]
+                try:
+                    with contextlib.redirect_stdout(io.StringIO()):
+                        c2 = getattr(raw, op['d'])(**op.get('kwargs', {}))
+                    exp = ['ok', snapshot(c2, user)]
+                except Exception as ex:
+                    exp = ['raise', type(ex).__name__]
+                rec['equal'] = exp == obs
+                if exp != obs:
+                    rec['expected'] = {'canon': exp if exp[0] == 'raise' else 'mesh', 'brief': ''}
+                    rec['observed'] = {'canon': obs if obs[0] == 'raise' else 'mesh', 'brief': rec.get('raised', '')}
             else:
                 (r2, after_o), user = item[4], item[5]
                 r1 = None
